@@ -1,5 +1,5 @@
 """The registered checks, one function per property."""
-import argparse, json, os, random, sys, time
+import argparse, json, os, random, shutil, sys, time
 import common as C
 from common import Result, ToolError, run_mc, run_pipeline, build_harness, log
 import gens
@@ -552,6 +552,9 @@ def gen_thread_sessions(rng, nz):
         for s in rng.sample(["EST5EDT,M3.2.0,M11.1.0", "CET-1CEST,M3.5.0,M10.5.0/3", "UTC0", "<-03>3", "AAA-1", "BBB-2", "Europe/Paris", "nonexistent/zone", ":UTC", "localtime"], 4):
             yield {"op": "posixtz", "a": {"s": C.B(s)}}
         yield {"op": "local", "a": {}}
+        # failing file-system calls (they leave errno set on the calling thread) next to resolutions through an in-memory reader
+        yield {"op": "posixtz", "a": {"s": C.B(rng.choice(["/etc/passwd/x", "/etc", ":/proc/self/mem/x"]))}}
+        yield {"op": "resolve", "a": {"s": C.B(rng.choice([":missing", ":a/b", "missing"])), "dirs": [C.B(d) for d in rng.sample(["/zi", "/zj"], rng.randint(0, 2))], "vfs": [], "via": "posix"}}
         yield {"op": "project", "a": {"t": C.W(rng.randint(-2**40, 2**40)), "ns": 5, "type": gens.rand_type(rng), "via": "dt"}}
 
 
@@ -601,28 +604,66 @@ def check_C15(tier, seed):
         if not res.samples:
             res.samples.append(C.strip(json.loads(open(outp).readline())))
         os.remove(outp)
-    # (5) no dependence on the process environment: the same calls with TZ and other variables set must return the same
+    # (5) no dependence on the process environment, on the working directory or on what the thread did before: the same calls
+    # with TZ and other variables set, from another directory (holding readable files named like the TZ values), and interleaved
+    # with failing file-system calls (which leave errno set) must return the same results, error texts included
     envin = os.path.join(C.OUT, "C15-env.in")
+    base_events = []
+    for s in ["EST5EDT,M3.2.0,M11.1.0", "UTC0", "Europe/Paris", ":UTC", "localtime", "nonexistent", "HST10", ":nonexistent", "Paris", "<-03>3"]:
+        base_events.append({"op": "posixtz", "a": {"s": C.B(s)}})
+    base_events.append({"op": "local", "a": {}})
+    # resolutions through an in-memory reader (it fails without any system call), incl. forced lookups of missing names
+    for e in gens.gen_resolve(rng, 40 if q else 400):
+        base_events.append({"op": e["op"], "a": e["a"]})
+    for nm in (":missing", ":a/b", "missing", ":"):
+        base_events.append({"op": "resolve", "a": {"s": C.B(nm), "dirs": [C.B("/zi")], "vfs": [], "via": "posix"}})
+        base_events.append({"op": "resolve", "a": {"s": C.B(nm), "dirs": [], "vfs": [], "via": "posix"}})
     with open(envin, "w") as f:
-        for s in ["EST5EDT,M3.2.0,M11.1.0", "UTC0", "Europe/Paris", ":UTC", "localtime", "nonexistent"]:
-            f.write(json.dumps({"op": "posixtz", "a": {"s": C.B(s)}}) + "\n")
-        f.write(json.dumps({"op": "local", "a": {}}) + "\n")
-    outs = []
-    for env_extra in ({}, {"TZ": "ODD-13:37", "TZDIR": "/nonexistent", "LC_ALL": "tr_TR.UTF-8", "HOME": "/nonexistent"}):
-        env = {k: v for k, v in os.environ.items() if k not in ("TZ", "TZDIR")}
-        env.update(env_extra)
-        o = envin + f".{len(outs)}.out"
-        subprocess.run([binary, "run", envin, o], capture_output=True, text=True, env=env, timeout=600)
-        outs.append(open(o).read()); os.remove(o)
-    if outs[0] != outs[1]:
-        res.violation("C15-result-depends-on-environment", {"op": "env", "a": {"set": ["TZ", "TZDIR", "LC_ALL", "HOME"]}, "r": {"without": outs[0][:600], "with": outs[1][:600]}})
-    res.events += 14
+        for e in base_events:
+            f.write(json.dumps(e, separators=(",", ":")) + "\n")
+    junk = [{"op": "posixtz", "a": {"s": C.B(s)}, "junk": 1} for s in ("/etc/passwd/x", "/etc", ":/proc/self/mem/x")]
+    histin = os.path.join(C.OUT, "C15-hist.in")
+    with open(histin, "w") as f:
+        for i, e in enumerate(base_events):
+            for j in rng.sample(junk, rng.randint(1, 2)):
+                f.write(json.dumps(j, separators=(",", ":")) + "\n")
+            f.write(json.dumps(e, separators=(",", ":")) + "\n")
+    cwd_dir = os.path.join(C.OUT, "C15-cwd")
+    shutil.rmtree(cwd_dir, ignore_errors=True)
+    os.makedirs(cwd_dir)
+    paris = open(os.path.join(C.VERIF, "corpus", "tzdata", "Europe", "Paris"), "rb").read()
+    for nm in ("UTC0", "nonexistent", "HST10", "EST5EDT,M3.2.0,M11.1.0", "Paris", "UTC", "<-03>3", "missing"):
+        open(os.path.join(cwd_dir, nm), "wb").write(paris)
+    clean_env = {k: v for k, v in os.environ.items() if k not in ("TZ", "TZDIR")}
+
+    def run_variant(infile, env, cwd, keep=lambda e: True):
+        o = infile + ".out"
+        subprocess.run([binary, "run", infile, o], capture_output=True, text=True, env=env, cwd=cwd, timeout=600)
+        rs = [json.dumps(e.get("r"), sort_keys=True) for e in map(json.loads, open(o)) if keep(e)]
+        os.remove(o)
+        return rs
+    base_out = run_variant(envin, clean_env, C.VERIF)
+    variants = {
+        "environment": run_variant(envin, dict(clean_env, TZ="ODD-13:37", TZDIR="/nonexistent", LC_ALL="tr_TR.UTF-8", HOME="/nonexistent"), C.VERIF),
+        "working-directory": run_variant(envin, clean_env, cwd_dir),
+        "history": run_variant(histin, clean_env, C.VERIF, keep=lambda e: "junk" not in e),
+    }
+    for what, got in variants.items():
+        if got != base_out:
+            k = next((i for i in range(min(len(got), len(base_out))) if got[i] != base_out[i]), min(len(got), len(base_out)))
+            res.violation("C15-result-depends-on-" + what, {"op": base_events[k]["op"] if k < len(base_events) else "?", "a": base_events[k]["a"] if k < len(base_events) else {},
+                                                            "r": {"plain": base_out[k][:600] if k < len(base_out) else None, "varied": got[k][:600] if k < len(got) else None}})
+    shutil.rmtree(cwd_dir, ignore_errors=True)
+    os.remove(histin)
+    res.drivers["independence-reruns"] = 4 * len(base_events)
+    res.events += 4 * len(base_events)
     os.remove(inp); os.remove(envin)
     res.notes["explanation"] = ("Threads.tla: every interleaving of 3 threads x 2-3 calls of the faithful library gives sequential results and touches no shared cell "
                                 "(the shared-cache variant is required to fail). The premise 'no cell' is bound to the code by a token-level scan of src/ and Cargo.toml whose "
                                 "facts TLC judges against the allowed set, by compile-time auto-trait assertions, by running the deterministic workload on 2..64 threads "
-                                "sharing the same zones (each thread's result must equal the sequential, TLC-validated one) and by repeating the environment-facing calls "
-                                "with TZ/TZDIR/LC_ALL/HOME changed.")
+                                "sharing the same zones (each thread's result must equal the sequential, TLC-validated one) and by repeating the environment-facing calls and in-memory resolutions "
+                                "with TZ/TZDIR/LC_ALL/HOME changed, from a working directory holding readable files named like the TZ values, and interleaved with failing "
+                                "file-system calls that leave errno set (results and error texts must be identical).")
     res.notes["rule"] = "interleavings exhaustive in the model, sampled in the real code; the scan is syntactic"
     return res.finish()
 
